@@ -990,6 +990,7 @@ def coq_mg_cases(hs_cases, hs_results, limit_n, max_cases):
 SETS_HEADER = '''From Coq Require Import List Arith Bool.
 From Verif.lib Require Import FinSet.
 From Verif.C04 Require Import Model Boundary.
+From Verif.C11 Require Import SmoothSets2.
 Import ListNotations.
 Fixpoint meshes_from (m : tpmesh) (L : nat) : list tpmesh :=
   match L with O => [] | S k => m :: meshes_from (tp_refine m) k end.
@@ -998,15 +999,16 @@ Fixpoint nleqb (a b : list nat) : bool :=
 Definition oleqb (a : option (list nat)) (b : list nat) : bool :=
   match a with Some l => nleqb l b | None => false end.
 (* a case: coarsest axes, disparity, (actfun, deactfun) per level, Dirichlet boundaries, and per virtual level
-   the implementation's indices_to_smooth('new'), indices_to_smooth('cell_supp'), dirichlet_dofs *)
+   the implementation's indices_to_smooth for new, cell_supp, trunc, func_supp and dirichlet_dofs *)
 Inductive scase := SC (axes : list axis) (disp : option nat) (funs : list (list mi * list mi))
-                      (bds : list bdspec) (exp : list (list nat * list nat * list nat)).
+                      (bds : list bdspec) (exp : list (list nat * list nat * list nat * list nat * list nat)).
 Definition agrees (c : scase) : bool :=
   let '(SC axes disp funs bds exp) := c in
   let st := mk_hspace (meshes_from (tpmesh_of axes) (length funs))
                       (map (fun ad => mk_level [] [] (of_list (fst ad)) (of_list (snd ad))) funs) disp in
-  forallb (fun lve => let '(lv, (n, cs, d)) := lve in
+  forallb (fun lve => let '(lv, (n, cs, tr, fs, d)) := lve in
                       oleqb (smooth_new st bds lv) n && oleqb (smooth_cell_supp st bds lv) cs
+                      && oleqb (smooth_trunc st bds lv) tr && oleqb (smooth_func_supp st bds lv) fs
                       && oleqb (dirichlet_dofs st bds lv) d)
           (combine (seq 0 (length funs)) exp).
 Fixpoint bad (k : nat) (cs : list scase) : list nat :=
@@ -1025,7 +1027,8 @@ def coq_sets_case(c, res, perturb=False):
         d = list(res['dirichlet'][lv])
         if perturb and lv == 0:
             d = d + [0]
-        exp.append('(%s, %s, %s)' % tuple(cnl(v) if v else '(@nil nat)' for v in (res['smooth']['new'][lv], res['smooth']['cell_supp'][lv], d)))
+        exp.append('(%s, %s, %s, %s, %s)' % tuple(cnl(v) if v else '(@nil nat)' for v in (
+            res['smooth']['new'][lv], res['smooth']['cell_supp'][lv], res['smooth']['trunc'][lv], res['smooth']['func_supp'][lv], d)))
     return '(SC %s %s %s %s %s)' % (axes, disp, funs, bds, clist(exp))
 
 
@@ -1034,7 +1037,7 @@ def sets_case_ok(res, limit):
         return False
     if any(isinstance(d, dict) for d in res['dirichlet']):
         return False
-    return all(isinstance(res['smooth'][st], list) and len(res['smooth'][st]) == res['numlevels'] for st in ('new', 'cell_supp'))
+    return all(isinstance(res['smooth'][st], list) and len(res['smooth'][st]) == res['numlevels'] for st in STRATS)
 
 
 # ---------------------------------------------------------------------------
@@ -1067,7 +1070,7 @@ def public(c):
 
 
 def run(ctx):
-    ctx.obligations_stage(PROPS, extra_targets=['C11/Examples.vo', 'C11/ExamplesSets.vo', 'C11/MGSolve.vo'], gate_dirs=['C04'])
+    ctx.obligations_stage(PROPS, extra_targets=['C11/Examples.vo', 'C11/ExamplesSets.vo', 'C11/ExamplesSets2.vo', 'C11/ExamplesSets3.vo', 'C11/MGSolve.vo'], gate_dirs=['C04'])
     ctx.assumptions += [
         'model: hand transcription of relaxation_cy.gauss_seidel/gauss_seidel_indexed, solvers.gauss_seidel, '
         'iterative_solve, twogrid (loop), local_mg_step and the set structure of HSpace.*_indices into Gallina over Qc '
@@ -1218,7 +1221,7 @@ def run(ctx):
         ndis += 1
         ctx.broken.append('correspondence C11 smoothing sets / Dirichlet dofs C04-model<->impl differs (space %d)' % b)
         viol = check_sets_on_impl(c, r) + check_history_on_impl(c, r)
-        ctx.report('tie:smoothing-sets', 'indices_to_smooth(new/cell_supp) or dirichlet_dofs differ from the C04 model (coq/C04/Boundary.v) on the same space'
+        ctx.report('tie:smoothing-sets', 'indices_to_smooth (one of the four strategies) or dirichlet_dofs differ from the models (coq/C04/Boundary.v, coq/C11/SmoothSets2.v) on the same space'
                    + (': ' + viol[0][1] if viol else ''),
                    {'case': c, 'impl': {k: r[k] for k in ('numlevels', 'actfun', 'deactfun', 'dirichlet', 'smooth')}}, found_input=bool(viol))
     n_sets_coq = len(ok_hs)
@@ -1244,8 +1247,7 @@ def run(ctx):
     ctx.cov['rounding'] = {'gs_bound': 'running forward error bound, g=(n+6)u', 'gs_max_observed_over_bound': maxratio,
                            'gs_bit_exact_cases': exact_hits, 'mg_bound': '10 L (2s+2) n u kappa scale',
                            'mg_max_observed_over_bound': stats['mg_max_dev_over_bound']}
-    ctx.cov['partial'] = ['smoothing_sets_spec_partial: strategies trunc/func_supp only at the level of function sets (not in the C04 model); '
-                          'success and uniqueness of the position search on reachable states not proved; all four strategies are evaluated on the implementation']
+    ctx.cov['partial'] = ['not proved: convergence of twogrid / the multigrid drivers for SPD problems (evaluated on the implementation)']
     ctx.cov['exhaustive'] = False
     if gs_cases:
         ctx.sample({'gauss_seidel': public(gs_cases[0]), 'impl': out['gs'][0]})
@@ -1311,6 +1313,6 @@ def replay(ctx, doc):
 
 META = {
     'technique': 'Rocq proofs over exact rationals (row-update order by induction on the while loops, textbook update by finite-sum algebra, energy identity for subspace corrections, stopping rules as state machines, multigrid fixed point by induction over the levels) + correspondence of the Gallina model with solvers.gauss_seidel / relaxation_cy / iterative_solve / local_mg_step on generated inputs under a derived running rounding bound (iteration counts and exactly computable iterates compared exactly) + the property predicate evaluated on the implementation with independent exact/numpy oracles',
-    'level_text': 'Theorems (Coq, unbounded, exact arithmetic Qc): solvers.gauss_seidel performs exactly the row updates of the stated order for dense and CSR input, any index list, sweep and iteration count (gs_update_order); each is the textbook update of the denoted matrix for every CSR with explicit zeros, unsorted or repeated off-diagonal coordinates and at most one stored diagonal entry (gs_textbook, gs_textbook_dense, gs_dense_sparse_agree, gs_zero_diagonal_skipped); exact solutions are fixed (gs_fixed_point*), only listed unknowns change (gs_indexed_only_touches), and for symmetric matrices with positive diagonal no sweep increases the energy (semi-)norm error (gs_energy_monotone*, from the identity E(x+d)=E(x)-d^T A d for subspace corrections). iterative_solve/solve_hmultigrid return (x,k) only at the first iterate meeting the reduction and (x,inf) only after max(1,maxiter) unsuccessful steps (iterative_solve_stops); twogrid (repaired) starts from any given vector and leaves its loop only for its three stated reasons (twogrid_accepts_u0_and_stops); the exact discrete solution is a fixed point of the local multigrid cycle for every number of levels, smoother, step count, prolongators and smoothing sets satisfying the stated hypotheses (mg_fixed_point, mg_fixed_point_one_level). The cycle with exact subspace solves never increases the energy functional / energy-norm error, for every number of levels (mg_exact_J_monotone, mg_exact_energy_monotone, mg_exact_energy_monotone_dirichlet, via the Galerkin-product algebra on list matrices: galerkin_product_entries, coarse_correction_splits_J). On the C04 model of HSpace, indices_to_smooth for the strategies new and cell_supp returns valid positions, no Dirichlet dof and all new non-Dirichlet dofs, for every state (smoothing_sets_spec, dirichlet_dofs_spec). Non-canonical CSR: the routine divides by the LAST stored diagonal entry and uses the denoted off-diagonal sums (gs_row_noncanonical, gs_duplicate_diagonal_uses_last, gs_duplicate_diagonal_denoted_value, gs_duplicate_diagonal_refuted). Partial: trunc/func_supp smoothing sets only at the level of function sets (smoothing_sets_spec_partial). Two-grid convergence and the driver return values are evaluated on the implementation on every run. Tie: smoothing sets (new, cell_supp) and dirichlet_dofs of every generated space are compared exactly with the C04 model the theorem is about (coq/C04/Boundary.v), on an HSpace object that was queried after every refinement and on a fresh one; ~420 (thorough 2400) Gauss-Seidel cases, 150 (600) iterative_solve cases and 40 (160) multigrid cycles are run through the implementation and through the Coq model (vm_compute) and compared under the derived bound / exactly.',
+    'level_text': 'Theorems (Coq, unbounded, exact arithmetic Qc): solvers.gauss_seidel performs exactly the row updates of the stated order for dense and CSR input, any index list, sweep and iteration count (gs_update_order); each is the textbook update of the denoted matrix for every CSR with explicit zeros, unsorted or repeated off-diagonal coordinates and at most one stored diagonal entry (gs_textbook, gs_textbook_dense, gs_dense_sparse_agree, gs_zero_diagonal_skipped); exact solutions are fixed (gs_fixed_point*), only listed unknowns change (gs_indexed_only_touches), and for symmetric matrices with positive diagonal no sweep increases the energy (semi-)norm error (gs_energy_monotone*, from the identity E(x+d)=E(x)-d^T A d for subspace corrections). iterative_solve/solve_hmultigrid return (x,k) only at the first iterate meeting the reduction and (x,inf) only after max(1,maxiter) unsuccessful steps (iterative_solve_stops); twogrid (repaired) starts from any given vector and leaves its loop only for its three stated reasons (twogrid_accepts_u0_and_stops); the exact discrete solution is a fixed point of the local multigrid cycle for every number of levels, smoother, step count, prolongators and smoothing sets satisfying the stated hypotheses (mg_fixed_point, mg_fixed_point_one_level). The cycle with exact subspace solves never increases the energy functional / energy-norm error, for every number of levels (mg_exact_J_monotone, mg_exact_energy_monotone, mg_exact_energy_monotone_dirichlet, via the Galerkin-product algebra on list matrices: galerkin_product_entries, coarse_correction_splits_J). On the C04 model of HSpace, indices_to_smooth for the strategies new and cell_supp returns valid positions, no Dirichlet dof and all new non-Dirichlet dofs, for every state (smoothing_sets_spec, dirichlet_dofs_spec); the same for all four strategies with func_supp and trunc modelled on the C04 model of function_children/function_grandparents (smoothing_sets_spec_all, func_supp_coarse_part, trunc_coarse_part). Non-canonical CSR: the routine divides by the LAST stored diagonal entry and uses the denoted off-diagonal sums (gs_row_noncanonical, gs_duplicate_diagonal_uses_last, gs_duplicate_diagonal_denoted_value, gs_duplicate_diagonal_refuted). On sorted states the position search of raveled_to_virtual_canonical_indices succeeds for all strategies and dirichlet_dofs, and every dof has exactly one position; both hold on all reachable states (position_search_succeeds, dof_position_unique, reachable_positions). Not proved: convergence of twogrid and of the drivers (analytic). Two-grid convergence and the driver return values are evaluated on the implementation on every run. Tie: smoothing sets (all four strategies) and dirichlet_dofs of every generated space are compared exactly with the C04 model the theorem is about (coq/C04/Boundary.v), on an HSpace object that was queried after every refinement and on a fresh one; ~420 (thorough 2400) Gauss-Seidel cases, 150 (600) iterative_solve cases and 40 (160) multigrid cycles are run through the implementation and through the Coq model (vm_compute) and compared under the derived bound / exactly.',
     'level_note': 'Trusted: Coq kernel + vm_compute; hand transcription of relaxation_cy.pyx, solvers.gauss_seidel/iterative_solve/twogrid/local_mg_step into Gallina (validated by the correspondence run); real arithmetic instead of binary64 (bounded per case by a running forward error bound derived from operation counts, stated in harness/props/c11.py); scipy format conversions and make_solver (SuperLU/Cholesky) satisfy their contracts; the equivalence sqrt(a)/sqrt(b)<t <-> a/b<t^2. Not covered: convergence rates; HSpace state invariants and canonical numbering (C04) behind indices_to_smooth are checked only on generated spaces; twogrid convergence only by runs. Defect repaired by fixes/C11-twogrid-u0.patch: twogrid(u0=ndarray) raised ValueError.',
 }
